@@ -105,7 +105,7 @@ def rule_verdict(program, ctx):
         "per shipped validator (frozen slot table): rejection is a `raise` (never `return False`); the guard compares the "
         "event field with the configuration source in the documented direction; for unconditional validators the normal "
         "exit is unreachable on any edge where the rejecting relation holds",
-        floor=10,
+        floor=3,
     )
     for q, (mode, patterns) in SLOTS.items():
         fn = program.func(q)
@@ -159,7 +159,7 @@ def rule_handlers(program, ctx):
         "C16.handlers",
         "web.start_client: the try around storage.add_event has handlers for StorageError/AuthenticationError and a "
         "catch-all `except Exception`, each assigning result = False; validators raise only Exception subclasses",
-        floor=2,
+        floor=1,
     )
     fn = program.func("nostr_relay.web:start_client")
     tries = []
